@@ -24,7 +24,7 @@ class Job:
     def __init__(self, name, src, defs=(), cuts=None, unwind=2, unwindset=(), flags=(), checks=(),
                  timeout=None, mem_gb=None, witness=True, witnesses=None, known=(), replay='native',
                  native_srcs=(), native_link=(), functions=(), bounds='', models=(), outside='',
-                 solver=None, object_bits=None, slice=False, expect_fail_desc=None, wdefs=(),
+                 solver=None, object_bits=None, slice=False, fs_array=300, expect_fail_desc=None, wdefs=(),
                  witness_unwind=None, weight=1):
         self.name = name
         self.src = src                    # path relative to /verif/harness
@@ -49,6 +49,7 @@ class Job:
         self.solver = solver
         self.object_bits = object_bits
         self.slice = slice
+        self.fs_array = fs_array
         self.wdefs = list(wdefs)
         self.witness_unwind = witness_unwind
         self.weight = weight
@@ -213,6 +214,8 @@ class Runner:
                 cmd += ['--memory-leak-check']
         if job.object_bits:
             cmd += ['--object-bits', str(job.object_bits)]
+        if job.fs_array:
+            cmd += ['--max-field-sensitivity-array-size', str(job.fs_array)]
         if job.slice:
             cmd += ['--slice-formula']
         if job.solver == 'kissat':
@@ -362,6 +365,10 @@ class Runner:
         props = p['props']
         rec['n_props'] = len(props)
         failed = [q for q in props if q.get('status') != 'SUCCESS']
+        if any(q.get('status') not in ('SUCCESS', 'FAILURE') for q in props) or p['status'] == 'error':
+            rec['verdict'] = 'solver-error'
+            rec['notes'].append('cbmc status=%s; %s' % (p['status'], '; '.join(p['errors'])[:600]))
+            return rec
         rec['functions'] = sorted({q.get('sourceLocation', {}).get('function', '?') for q in props})
         if mode == 'witness':
             reached = [q['description'] for q in failed if q.get('description', '').startswith('witness')]
